@@ -22,6 +22,7 @@ class Kernel:
     nopython: bool
     parallel: bool = False
     sigs: List[List[Tuple[str, int]]] = field(default_factory=list)  # per signature: [(dtype, ndim)]
+    layouts: List[List[str]] = field(default_factory=list)  # per signature: 'A' | 'C' | 'F' per parameter
     layout: Optional[str] = None
     options: Dict[str, str] = field(default_factory=dict)   # keyword options of the numba decorator
     in_dims: List[Tuple[str, ...]] = field(default_factory=list)
@@ -54,8 +55,22 @@ def _parse_type(s: str) -> Tuple[str, int]:
         raise AnalysisError(f"cannot parse numba type {s!r}")
     nd = 0
     if m.group(2):
-        nd = m.group(2).count(":")
+        # one comma-separated part per dimension: `:` any layout, `::1` contiguous in that dimension
+        nd = len([p for p in m.group(2)[1:-1].split(",") if p.strip()])
     return m.group(1), nd
+
+
+def type_layout(s: str) -> str:
+    """'A' (any strides), 'C' (last dimension declared `::1`), 'F' (first dimension declared `::1`) of a numba array type string."""
+    m = re.fullmatch(r"\s*(\w+)\s*(\[[^\]]*\])?\s*", s)
+    if not m or not m.group(2):
+        return "A"
+    parts = [p.strip() for p in m.group(2)[1:-1].split(",") if p.strip()]
+    if parts and parts[-1] == "::1":
+        return "C"
+    if parts and parts[0] == "::1":
+        return "F"
+    return "A"
 
 
 def _parse_sig_string(s: str) -> List[Tuple[str, int]]:
@@ -76,6 +91,34 @@ def _parse_sig_string(s: str) -> List[Tuple[str, int]]:
     if cur.strip():
         parts.append(cur)
     return [_parse_type(p) for p in parts]
+
+
+def _split_sig(s: str) -> List[str]:
+    s = s.strip()
+    if s.startswith("(") and s.endswith(")"):
+        s = s[1:-1]
+    parts, depth, cur = [], 0, ""
+    for ch in s:
+        if ch == "[":
+            depth += 1
+        if ch == "]":
+            depth -= 1
+        if ch == "," and depth == 0:
+            parts.append(cur)
+            cur = ""
+        else:
+            cur += ch
+    if cur.strip():
+        parts.append(cur)
+    return parts
+
+
+def sig_layouts(n: ast.AST) -> List[str]:
+    if isinstance(n, ast.Constant) and isinstance(n.value, str):
+        return [type_layout(p) for p in _split_sig(n.value)]
+    if isinstance(n, ast.Tuple):
+        return [type_layout(ast.unparse(e)) for e in n.elts]
+    return []
 
 
 def _parse_sig_node(n: ast.AST) -> List[Tuple[str, int]]:
@@ -143,6 +186,7 @@ def load_kernels(repo: Repo) -> Dict[str, Kernel]:
                 sigs = call.args[0]
                 nodes = sigs.elts if isinstance(sigs, ast.List) else [sigs]
                 k.sigs = [_parse_sig_node(n) for n in nodes]
+                k.layouts = [sig_layouts(n) for n in nodes]
                 if not (isinstance(call.args[1], ast.Constant) and isinstance(call.args[1].value, str)):
                     raise AnalysisError(f"gufunc layout is not a literal: {m.rel}:{fn.name}")
                 k.layout = call.args[1].value
